@@ -91,6 +91,6 @@ Proof.
   exists rs1, (ddict_set rs1 (PBool true) (the_renderer numfmt kq S)).
   split; [exact E1|]. split.
   - exact (inv_prepare_expand_src S mw prep (PInt 0) (PBool false) ls cn ds rs1 Hc1 Hu Hc).
-  - intros l. apply inv_format_expand_src. apply get_set.
+  - intros l. apply (inv_format_expand_src call_ref numfmt kq). apply get_set.
 Qed.
 End InvPrepTie.
